@@ -38,6 +38,38 @@ Lemma regs_with_top_next s h : regs (with_top_next s h) = regs s. Proof. reflexi
   regs_with_batches regs_with_cur regs_with_sb regs_with_vars regs_with_cis regs_with_oracle regs_with_top_next : regs.
 Ltac rr := autorewrite with regs; try reflexivity.
 
+(* the end of wait_for only touches the set of scheduled batches *)
+Lemma drop_sb_cases s : drop_sb s = with_sb s [] \/ drop_sb s = s.
+Proof. unfold drop_sb. destruct (tasks s); auto. Qed.
+Lemma regs_drop_sb s : regs (drop_sb s) = regs s.
+Proof. destruct (drop_sb_cases s) as [E|E]; rewrite E; reflexivity. Qed.
+Lemma heap_drop_sb s : heap (drop_sb s) = heap s.
+Proof. destruct (drop_sb_cases s) as [E|E]; rewrite E; reflexivity. Qed.
+Lemma batches_drop_sb s : batches (drop_sb s) = batches s.
+Proof. destruct (drop_sb_cases s) as [E|E]; rewrite E; reflexivity. Qed.
+Lemma top_next_drop_sb s : top_next (drop_sb s) = top_next s.
+Proof. destruct (drop_sb_cases s) as [E|E]; rewrite E; reflexivity. Qed.
+Lemma trace_drop_sb s : trace (drop_sb s) = trace s.
+Proof. destruct (drop_sb_cases s) as [E|E]; rewrite E; reflexivity. Qed.
+Lemma tasks_drop_sb s : tasks (drop_sb s) = tasks s.
+Proof. destruct (drop_sb_cases s) as [E|E]; rewrite E; reflexivity. Qed.
+Lemma active_drop_sb s : active (drop_sb s) = active s.
+Proof. destruct (drop_sb_cases s) as [E|E]; rewrite E; reflexivity. Qed.
+Lemma vars_drop_sb s : vars (drop_sb s) = vars s.
+Proof. destruct (drop_sb_cases s) as [E|E]; rewrite E; reflexivity. Qed.
+Lemma cis_drop_sb s : cis (drop_sb s) = cis s.
+Proof. destruct (drop_sb_cases s) as [E|E]; rewrite E; reflexivity. Qed.
+Lemma cur_drop_sb s : cur (drop_sb s) = cur s.
+Proof. destruct (drop_sb_cases s) as [E|E]; rewrite E; reflexivity. Qed.
+Lemma get_drop_sb h s : get h (drop_sb s) = get h s.
+Proof. unfold get. rewrite heap_drop_sb. reflexivity. Qed.
+Lemma computed_drop_sb h s : computed h (drop_sb s) = computed h s.
+Proof. unfold computed. rewrite get_drop_sb. reflexivity. Qed.
+Lemma drop_sb_empty s : tasks s = [] -> sb (drop_sb s) = [].
+Proof. intros H. unfold drop_sb. rewrite H. reflexivity. Qed.
+Lemma sb_drop_sb_incl s k : In k (sb (drop_sb s)) -> In k (sb s).
+Proof. destruct (drop_sb_cases s) as [E|E]; rewrite E; [intros []|auto]. Qed.
+
 Lemma regs_alloc p s : regs (snd (alloc p s)) = regs s.
 Proof. reflexivity. Qed.
 
